@@ -2,7 +2,8 @@ import Cello.Iter
 import Driver.Common
 /- driver for engine `iter` (C11).
 
-   op file:  `W <expr>`   build the iterable, walk it forwards (iter_init / iter_next) and backwards (iter_last / iter_prev),
+   op file:  `V <expr>`   as `W` (the harness builds the top-level view with the stack macros of Cello.h; same model)
+             `W <expr>`   build the iterable, walk it forwards (iter_init / iter_next) and backwards (iter_last / iter_prev),
                            ask len and get(0 … len-1);   prints
                  O f=[items] fe=<term|ub|hang|fuel> b=[items] be=<…> len=<n|-> get=[values|!]     or   O construct=<Exception>
              `S <n> <a> <b> <c>`  Slice_Arg / slice_stack only: prints  O range=<start>,<stop>,<step> len=<Range_Len>
@@ -118,7 +119,7 @@ def main (args : List String) : IO Unit := do
   let lines ← Driver.inputLines args
   for l in lines do
     if Driver.isSkippable l then continue
-    if l.startsWith "W " then
+    if l.startsWith "W " || l.startsWith "V " then
       match IterDrv.parseExpr (IterDrv.tokenize (l.drop 2).toString) with
       | some (e, []) => IO.println (IterDrv.report e)
       | _ => IO.println "O bad-op"
